@@ -202,7 +202,7 @@ def track_table(ctx, rid):
         r.undecidable(rid, "FormatReport::track_errors not found")
         return
     try:
-        paths = explore(f, max_visits=2, pure=lambda c: c.name.endswith("::is_empty"), max_paths=50000)
+        paths = explore(f, max_visits=2, pure=lambda c: c.name.endswith("::is_empty"), max_paths=50000, program=p, inline="auto")
         # the loop body may live in a closure handed to Iterator::for_each; with disjoint captures the flags are
         # closure slots `arg1.<i>`: map them back to the fields borrowed where the closure is built
         for g in p.closures_of(f):
